@@ -658,6 +658,10 @@ class CallMixin:
             if is_obj(v.kind):
                 if self.reg.is_subclass(v.kind.target.cls, cls):
                     return V(BOOL, v.term != 0)
+                for a_, b_ in self.reg.disjoint:
+                    for x_, y_ in ((a_, b_), (b_, a_)):
+                        if self.reg.is_subclass(v.kind.target.cls, x_) and self.reg.is_subclass(cls, y_):
+                            return V(BOOL, z3.BoolVal(False))
                 dyn = z3.Function(f"isinst_{cls}", I, z3.BoolSort())
                 return V(BOOL, dyn(v.term))
             if cls == "list" or cls == "GengyList":
